@@ -4,6 +4,8 @@
 # runs the property's check against it and stores everything under /verif/seeded/<PID>-<mN>/.
 pid=$1; m=$2; shift 2
 src=/tmp/mut/$pid/out/$m
+# re-intake of an already stored change: take it from /verif/seeded
+[ -f $src/patch.diff ] || src=/verif/seeded/$pid-$m
 [ -f $src/patch.diff ] || { echo "no patch in $src"; exit 2; }
 export GOFLAGS=-mod=mod GOPROXY=off GOSUMDB=off GOTOOLCHAIN=local
 wt=$(mktemp -d /tmp/mw.XXXXXX); rmdir $wt
@@ -19,7 +21,8 @@ ut=$(cd $wt && go test -vet=off -count=1 ./... 2>&1 | grep -c "^FAIL\|^--- FAIL"
 if [ -f $src/demo.sh ]; then bash $src/demo.sh $wt >/dev/null 2>&1; demo_mut=$?; fi
 (cd $wt && git checkout -q go.mod go.sum 2>/dev/null)
 dst=/verif/seeded/$pid-$m
-mkdir -p $dst; cp $src/patch.diff $dst/; cp $src/notes.md $dst/ 2>/dev/null; cp $src/demo* $dst/ 2>/dev/null
+mkdir -p $dst
+if [ "$src" != "$dst" ]; then cp $src/patch.diff $dst/; cp $src/notes.md $dst/ 2>/dev/null; cp $src/demo* $dst/ 2>/dev/null; fi
 res=""
 cd /verif
 for p in $pid "$@"; do
